@@ -37,6 +37,10 @@ def const1(x, a):
     return a
 
 
+def const0d(x, a):
+    return np.asarray(a, dtype=float)  # a constant that comes as a 0-d array (np.where, values read from a file)
+
+
 def logi2(x, a, b):
     return a + b / (1 + np.exp(-np.asarray(x, dtype=float) / 3.0))
 
@@ -98,6 +102,7 @@ def _gen_slot(S, tier):
                 d["deps"][k] = [v, amp]
             if const:
                 d["const_deps"] = True
+                d["const_kind"] = S.pick(["float", "0d"])
         dims.append(d)
     return {"kind": "model", "dims": dims}
 
@@ -128,7 +133,7 @@ def generate(prop, seed, tier):
         if S.chance(0.35):
             # a follow-up that makes a seeding relation observable
             prev = ops[-1]
-            mode = S.pick(["repeat", "other_seed", "same_gen"])
+            mode = S.pick(["repeat", "other_seed", "same_gen", "restored_gen"])
             if mode == "repeat" and prev["rs"]["kind"] in ("int", "none"):
                 ops.append(copy.deepcopy(prev))
             elif mode == "other_seed" and prev["rs"]["kind"] == "int":
@@ -138,6 +143,12 @@ def generate(prop, seed, tier):
                 ops.append(o)
             elif mode == "same_gen" and prev["rs"]["kind"] == "gen":
                 ops.append(copy.deepcopy(prev))
+            elif mode == "restored_gen" and prev["rs"]["kind"] == "gen":
+                # the caller checkpoints the generator (bit_generator.state) before a draw and writes the
+                # state back later: the draw must replay
+                o = copy.deepcopy(prev)
+                o["rs"]["restore"] = True
+                ops.append(o)
     # history: the object's parameters change (re-fit or plain assignment) between draws
     for si, sl in enumerate(slots):
         if sl["kind"] in ("dist", "model") and S.chance(0.35):
@@ -212,7 +223,8 @@ def build_slot(sl):
             pars = {}
             for k, (a, b) in d["deps"].items():
                 if d.get("const_deps"):
-                    f = types.FunctionType(const1.__code__, const1.__globals__, "const1", (a,))
+                    c_ = const0d if d.get("const_kind") == "0d" else const1
+                    f = types.FunctionType(c_.__code__, c_.__globals__, c_.__name__, (a,))
                 else:
                     f = types.FunctionType(logi2.__code__, logi2.__globals__, "logi2", (a, b))
                 pars[k] = DependenceFunction(f)
@@ -411,6 +423,7 @@ def _one_pass(scen, objs, which, on_draw=None):
     """Execute the schedule once; returns list of arrays (one per draw op).  on_draw(k, op, x)
     is called right after each draw, while the object still is in the state it was drawn from."""
     gens = [np.random.default_rng(s) for s in scen["gens"]]
+    gen_checkpoint = {}
     out = []
     seams.pin_global(core.h64(scen["seed"], "pass", which))
     for k, op in enumerate(scen["ops"]):
@@ -459,7 +472,11 @@ def _one_pass(scen, objs, which, on_draw=None):
                 seed = {"int": int, "np.int64": np.int64, "np.uint32": np.uint32}[rs.get("type", "int")](rs["seed"])
                 x = obj.draw_sample(n_arg, random_state=seed)
             else:
-                x = obj.draw_sample(n_arg, random_state=gens[rs["gen"]])
+                gi = rs["gen"]
+                if rs.get("restore") and gi in gen_checkpoint:
+                    gens[gi].bit_generator.state = gen_checkpoint[gi]
+                gen_checkpoint[gi] = copy.deepcopy(gens[gi].bit_generator.state)
+                x = obj.draw_sample(n_arg, random_state=gens[gi])
             out.append(np.array(x, dtype=float, copy=True))
             # the caller post-processes what he was handed (sorts a column, converts units in place); the
             # sample is his, a later draw must not hand the same array out again
@@ -581,7 +598,13 @@ def _execute(prop, scen):
                     if not np.array_equal(xa, xb):
                         run.violate("I3-none-is-function-of-global-state", scen["slots"][oa["slot"]]["kind"], {"ops": [ka, kb], "n": oa["n"]})
                         return run
-                if ra["kind"] == rb["kind"] == "gen" and ra["gen"] == rb["gen"] and kb == ka + 1:
+                if ra["kind"] == rb["kind"] == "gen" and ra["gen"] == rb["gen"] and kb == ka + 1 and rb.get("restore"):
+                    run.count("seed_relations_checked")
+                    run.count("probe:generator-state-written-back")
+                    if not np.array_equal(xa, xb):
+                        run.violate("I3-restored-generator-state-replays", scen["slots"][oa["slot"]]["kind"], {"ops": [ka, kb], "n": oa["n"]})
+                        return run
+                elif ra["kind"] == rb["kind"] == "gen" and ra["gen"] == rb["gen"] and kb == ka + 1:
                     run.count("seed_relations_checked")
                     if np.array_equal(xa, xb):
                         run.violate("I3-generator-state-advances", scen["slots"][oa["slot"]]["kind"], {"ops": [ka, kb], "n": oa["n"]})
